@@ -2707,20 +2707,22 @@ func (p *Parser) testClause(s *Stmt) {
 	s.Cmd = tc
 }
 
+// testExprBinary parses an expression inside [[ ]]. Like in Bash, "&&" binds
+// tighter than "||", both associate to the left, and "!" only negates the
+// term that follows it. With pastAndOr set, it parses a single such term.
 func (p *Parser) testExprBinary(pastAndOr bool) TestExpr {
-	p.got(_Newl)
-	var left TestExpr
-	if pastAndOr {
-		left = p.testExprUnary()
-	} else {
-		left = p.testExprBinary(true)
+	if !pastAndOr {
+		return p.testExprAndOr(OrTest)
 	}
+	p.got(_Newl)
+	left := p.testExprUnary()
 	if left == nil {
 		return left
 	}
 	p.got(_Newl)
 	switch p.tok {
 	case andAnd, orOr:
+		return left
 	case _LitWord:
 		if p.val == "]]" {
 			return left
@@ -2742,11 +2744,6 @@ func (p *Parser) testExprBinary(pastAndOr bool) TestExpr {
 		X:     left,
 	}
 	switch b.Op {
-	case AndTest, OrTest:
-		p.next()
-		if b.Y = p.testExprBinary(false); b.Y == nil {
-			p.followErrExp(b.OpPos, b.Op)
-		}
 	case TsReMatch:
 		p.checkLang(p.pos, langBashLike|LangZsh, "regex tests")
 		p.rxOpenParens = 0
@@ -2765,6 +2762,51 @@ func (p *Parser) testExprBinary(pastAndOr bool) TestExpr {
 		b.Y = p.followWordTok(token(b.Op), b.OpPos)
 	}
 	return b
+}
+
+// testExprAndOr parses a left-associative list of operands joined by op,
+// where the operands of "||" are "&&" lists and those of "&&" are terms.
+func (p *Parser) testExprAndOr(op BinTestOperator) TestExpr {
+	operand := func() TestExpr {
+		if op == OrTest {
+			return p.testExprAndOr(AndTest)
+		}
+		return p.testExprBinary(true)
+	}
+	left := operand()
+	for left != nil {
+		if op == AndTest {
+			// A complete term must be followed by "&&", "||", or the end.
+			switch p.tok {
+			case andAnd, orOr, _EOF, rightParen:
+			case _LitWord:
+				if p.val == "]]" {
+					break
+				}
+				if token(testBinaryOp(p.val)) == illegalTok {
+					p.curErr("not a valid test operator: %#q", p.val)
+				}
+				fallthrough
+			case rdrIn, rdrOut:
+				p.curErr("expected %#q, %#q or %#q after complex expr",
+					AndTest, OrTest, dblRightBrack)
+			case _Lit:
+				p.curErr("test operator words must consist of a single literal")
+			default:
+				p.curErr("not a valid test operator: %#q", p.tok)
+			}
+		}
+		if (p.tok != andAnd && p.tok != orOr) || BinTestOperator(p.tok) != op {
+			break
+		}
+		b := &BinaryTest{OpPos: p.pos, Op: op, X: left}
+		p.next()
+		if b.Y = operand(); b.Y == nil {
+			p.followErrExp(b.OpPos, b.Op)
+		}
+		left = b
+	}
+	return left
 }
 
 func (p *Parser) testExprUnary() TestExpr {
@@ -2787,7 +2829,7 @@ func (p *Parser) testExprUnary() TestExpr {
 	case exclMark:
 		u := &UnaryTest{OpPos: p.pos, Op: TsNot}
 		p.next()
-		if u.X = p.testExprBinary(false); u.X == nil {
+		if u.X = p.testExprBinary(true); u.X == nil {
 			p.followErrExp(u.OpPos, u.Op)
 		}
 		return u
